@@ -1,9 +1,12 @@
 package pslice
 
 import (
+	"encoding/json"
 	"fmt"
 	"runtime"
+	"runtime/debug"
 	"sync"
+	"sync/atomic"
 	"testing"
 
 	"pgregory.net/rapid"
@@ -33,14 +36,29 @@ type slot interface {
 	Leave()
 }
 
+// liveCase is what a worker hands to its watchdog slot: it serialises as the
+// case the worker is executing at the moment it is looked at.  This lets a
+// worker enter its slot once per block of cases (Enter reads the process CPU
+// time, a system call that serialises the workers when made per microsecond
+// case) while a hang is still reported with the very case that hangs.
+type liveCase[C any] struct{ cur atomic.Pointer[C] }
+
+func (l *liveCase[C]) MarshalJSON() ([]byte, error) { return json.Marshal(l.cur.Load()) }
+
+const slotBlock = 256 // cases per Enter/Leave of the watchdog slot
+
 type exhRunner[C any] struct {
-	h     *vk.H
-	t     *testing.T
-	names []string
-	check func(C) (info, string)
-	tl    []*vk.Tally
-	cls   [][32]int64
-	slots []slot
+	h        *vk.H
+	t        *testing.T
+	names    []string
+	check    func(C) (info, string)
+	tl       []*vk.Tally
+	cls      [][32]int64
+	slots    []slot
+	live     []*liveCase[C]
+	inBlk    []int // cases run since the worker entered its slot (0 = not entered)
+	oldGC    int
+	oldLimit int64
 
 	mu       sync.Mutex
 	failMsg  string
@@ -50,10 +68,17 @@ type exhRunner[C any] struct {
 
 func newExh[C any](h *vk.H, t *testing.T, names []string, check func(C) (info, string)) *exhRunner[C] {
 	w := runtime.GOMAXPROCS(0)
-	e := &exhRunner[C]{h: h, t: t, names: names, check: check, cls: make([][32]int64, w)}
+	e := &exhRunner[C]{h: h, t: t, names: names, check: check, cls: make([][32]int64, w), inBlk: make([]int, w)}
+	// The live heap is tiny and every case allocates a little, so with the
+	// default setting the collector runs thousands of times per second and
+	// its pauses serialise the workers.  Collect by a soft memory limit
+	// instead: a cycle starts only when the heap reaches 384 MB.
+	e.oldGC = debug.SetGCPercent(-1)
+	e.oldLimit = debug.SetMemoryLimit(384 << 20)
 	for i := 0; i < w; i++ {
 		e.tl = append(e.tl, vk.NewTally())
 		e.slots = append(e.slots, h.Slot())
+		e.live = append(e.live, &liveCase[C]{})
 	}
 	return e
 }
@@ -70,13 +95,19 @@ func (e *exhRunner[C]) level(n int, decode func(i int) (C, bool)) bool {
 			return
 		}
 		var in info
-		e.slots[w].Enter(c)
+		e.live[w].cur.Store(&c)
+		if e.inBlk[w] == 0 {
+			e.slots[w].Enter(e.live[w])
+		}
 		msg := vk.Guard(func() string {
 			var m string
 			in, m = e.check(c)
 			return m
 		})
-		e.slots[w].Leave()
+		if e.inBlk[w]++; e.inBlk[w] >= slotBlock {
+			e.slots[w].Leave()
+			e.inBlk[w] = 0
+		}
 		if msg != "" {
 			p := e.h.Fail(c, msg)
 			sz := len(fmt.Sprintf("%+v", c))
@@ -97,16 +128,24 @@ func (e *exhRunner[C]) level(n int, decode func(i int) (C, bool)) bool {
 				e.cls[w][b]++
 			}
 		}
-		if tl.Evals%1024 == 1 || (in.nt && tl.NT%256 == 1) {
+		if tl.Evals%4096 == 1 || (in.nt && tl.NT%1024 == 1) {
 			e.h.Sample(c, in.nt)
 		}
 	})
+	for w := range e.slots {
+		if e.inBlk[w] != 0 {
+			e.slots[w].Leave()
+			e.inBlk[w] = 0
+		}
+	}
 	return !e.h.Failed()
 }
 
 // finish merges the counters; complete says whether the whole finite space
 // was enumerated.  It fails the test if a violation was recorded.
 func (e *exhRunner[C]) finish(complete bool) {
+	debug.SetGCPercent(e.oldGC)
+	debug.SetMemoryLimit(e.oldLimit)
 	for w, tl := range e.tl {
 		for b, name := range e.names {
 			if e.cls[w][b] != 0 {
